@@ -23,7 +23,7 @@ impl Conditions for Cond {}
 
 /// Condition types the harness is instantiated with.
 pub trait Cx:
-    Conditions + Serialize + DeserializeOwned + Eq + Ord + Hash + std::panic::RefUnwindSafe + 'static
+    Conditions + Serialize + DeserializeOwned + Eq + Ord + Hash + Send + 'static
 {
     const WITH: bool;
     const NAME: &'static str;
@@ -158,26 +158,20 @@ impl<C: Cx> Outcome<C> {
     }
 }
 
+/// Error class = variant names of the error's `Debug` text (stable across seeds, and independent
+/// of the exact set of variants so that the harness also builds against patched trees).
 pub fn error_kind<C: Cx>(e: &CrdtError<C>) -> String {
-    use p2panda_auth::group::GroupMembershipError as M;
-    match e {
-        GroupCrdtError::Inner(_) => "Inner".into(),
-        GroupCrdtError::DuplicateOperation(..) => "DuplicateOperation".into(),
-        GroupCrdtError::GroupCycle(..) => "GroupCycle".into(),
-        GroupCrdtError::ManagerGroupsNotAllowed(..) => "ManagerGroupsNotAllowed".into(),
-        GroupCrdtError::Resolver(_) => "Resolver".into(),
-        GroupCrdtError::StateChangeError(_, m) => format!(
-            "StateChange:{}",
-            match m {
-                M::AlreadyAdded(_) => "AlreadyAdded",
-                M::AlreadyRemoved(_) => "AlreadyRemoved",
-                M::InsufficientAccess(_) => "InsufficientAccess",
-                M::InactiveActor(_) => "InactiveActor",
-                M::InactiveMember(_) => "InactiveMember",
-                M::UnrecognisedActor(_) => "UnrecognisedActor",
-                M::UnrecognisedMember(_) => "UnrecognisedMember",
-            }
-        ),
+    let text = format!("{e:?}");
+    let outer: String = text.chars().take_while(|c| c.is_alphanumeric()).collect();
+    if outer == "StateChangeError" {
+        // StateChangeError(<op id>, <Variant>(..))
+        let inner: String = text
+            .split_once(", ")
+            .map(|(_, rest)| rest.chars().take_while(|c| c.is_alphanumeric()).collect())
+            .unwrap_or_default();
+        format!("StateChange:{inner}")
+    } else {
+        outer
     }
 }
 
@@ -199,12 +193,20 @@ pub fn process<C: Cx>(y: &State<C>, op: &Op<C>) -> Outcome<C> {
 pub type Entry = (bool, char, u8, Option<i64>);
 
 /// Everything the membership queries answer, normalised (sorted): key = (group, query).
+/// `skipped` lists groups whose transitive queries were not issued because the replica's merged
+/// group graph contains a nesting cycle on which `members_inner` (no visited set, depth cap 1000)
+/// would perform the stated number (log2) of recursive visits.
 #[derive(Clone, Debug, PartialEq, Eq, Hash, PartialOrd, Ord, Serialize)]
-pub struct Answers(pub BTreeMap<(char, &'static str), Vec<Entry>>);
+pub struct Answers(pub BTreeMap<(char, &'static str), Vec<Entry>>, pub BTreeMap<char, u32>);
 
 pub const Q_ROOT: &str = "root_members";
 pub const Q_MEMBERS: &str = "members";
 pub const Q_GROUPS: &str = "groups";
+
+/// Transitive queries predicted to need more recursive visits than this are not issued.
+pub const VISIT_BUDGET: f64 = 200_000.0;
+/// Depth cap of `members_inner` in crdt/mod.rs (only used to predict the amount of recursion).
+const MAX_NESTED_DEPTH: usize = 1000;
 
 pub fn root_members<C: Cx>(y: &State<C>, g: char) -> Vec<Entry> {
     let mut v: Vec<Entry> = y
@@ -219,10 +221,72 @@ pub fn root_members<C: Cx>(y: &State<C>, g: char) -> Vec<Entry> {
     v
 }
 
+/// Number of `members_inner` invocations a transitive query on `g` performs, computed from the
+/// direct memberships alone: visits(g, d) = 1 + sum over listed sub-groups h of visits(h, d + 1),
+/// cut at the depth cap. Polynomial to compute, exponential in value when nesting cycles branch.
+pub fn predicted_visits(adj: &BTreeMap<char, Vec<char>>, g: char) -> f64 {
+    // Cheap exit: no cycle reachable from g.
+    fn cyclic(adj: &BTreeMap<char, Vec<char>>, g: char, path: &mut Vec<char>) -> bool {
+        if path.contains(&g) {
+            return true;
+        }
+        path.push(g);
+        let r = adj.get(&g).map(|hs| hs.iter().any(|h| cyclic(adj, *h, path))).unwrap_or(false);
+        path.pop();
+        r
+    }
+    if !cyclic(adj, g, &mut Vec::new()) {
+        return 1.0;
+    }
+    let nodes: Vec<char> = adj.keys().cloned().collect();
+    let mut next: BTreeMap<char, f64> = nodes.iter().map(|n| (*n, 1.0)).collect();
+    for _ in 0..MAX_NESTED_DEPTH {
+        let mut cur = BTreeMap::new();
+        for n in &nodes {
+            let s: f64 = adj[n].iter().map(|h| next.get(h).cloned().unwrap_or(1.0)).sum();
+            cur.insert(*n, 1.0 + s);
+        }
+        next = cur;
+    }
+    next.get(&g).cloned().unwrap_or(1.0)
+}
+
+/// Result of the one real probe per process that backs the recursion prediction: the first time
+/// a transitive query is predicted to exceed the budget it is issued on a helper thread and
+/// awaited for 2 s. `Some(true)` (it returned: the prediction does not hold for this tree, e.g.
+/// the traversal was repaired) makes all later queries be issued normally.
+pub static BLOWUP_PROBE_RETURNED: std::sync::OnceLock<bool> = std::sync::OnceLock::new();
+
+fn probe_blowup<C: Cx>(y: &State<C>, g: char) -> bool {
+    *BLOWUP_PROBE_RETURNED.get_or_init(|| {
+        if cfg!(miri) {
+            return false;
+        }
+        let y = y.clone();
+        let (tx, rx) = std::sync::mpsc::channel();
+        std::thread::spawn(move || {
+            let n = y.members(g).len();
+            let _ = tx.send(n);
+        });
+        rx.recv_timeout(std::time::Duration::from_secs(2)).is_ok()
+    })
+}
+
 pub fn answers<C: Cx>(y: &State<C>, groups: &[char]) -> Answers {
     let mut out = BTreeMap::new();
+    let mut skipped = BTreeMap::new();
+    let mut adj: BTreeMap<char, Vec<char>> = BTreeMap::new();
     for &g in groups {
-        out.insert((g, Q_ROOT), root_members(y, g));
+        let r = root_members(y, g);
+        adj.insert(g, r.iter().filter(|e| e.0).map(|e| e.1).collect());
+        out.insert((g, Q_ROOT), r);
+    }
+    for &g in groups {
+        let visits = predicted_visits(&adj, g);
+        if visits > VISIT_BUDGET && !probe_blowup(y, g) {
+            skipped.insert(g, visits.log2().min(4000.0) as u32);
+            continue;
+        }
         let mut v: Vec<Entry> = y
             .members(g)
             .into_iter()
@@ -244,7 +308,7 @@ pub fn answers<C: Cx>(y: &State<C>, groups: &[char]) -> Answers {
         v.sort();
         out.insert((g, Q_GROUPS), v);
     }
-    Answers(out)
+    Answers(out, skipped)
 }
 
 pub fn answers_json(a: &Answers) -> Value {
@@ -266,6 +330,9 @@ pub fn answers_json(a: &Answers) -> Value {
             })
             .collect();
         m.insert(format!("{q}({g})"), json!(items.join(" ")));
+    }
+    for (g, log2) in &a.1 {
+        m.insert(format!("transitive queries of {g} not issued"), json!(format!("predicted ~2^{log2} recursive visits")));
     }
     Value::Object(m)
 }
@@ -332,14 +399,14 @@ pub fn diff_answers(a: &Answers, b: &Answers) -> Vec<Diff> {
 // Looking into stored member states (counters) through the crate's serde feature
 // ---------------------------------------------------------------------------------------------
 
-#[derive(Clone, Debug, PartialEq, Eq, Hash, PartialOrd, Ord, Serialize, Deserialize)]
+#[derive(Clone, Debug, PartialEq, Eq, PartialOrd, Ord, Serialize, Deserialize)]
 #[serde(bound = "C: Serialize + DeserializeOwned")]
 pub struct MirrorAccess<C> {
     pub conditions: Option<C>,
     pub level: AccessLevel,
 }
 
-#[derive(Clone, Debug, PartialEq, Eq, Hash, PartialOrd, Ord, Serialize, Deserialize)]
+#[derive(Clone, Debug, PartialEq, Eq, PartialOrd, Ord, Serialize, Deserialize)]
 #[serde(bound = "C: Serialize + DeserializeOwned")]
 pub struct MirrorMember<C> {
     pub member_counter: usize,
@@ -408,4 +475,19 @@ pub fn has_equal_counter_tie<C: Cx>(y: &State<C>, group: char, member: GroupMemb
         }
     }
     false
+}
+
+/// True when any (group, member) of the replica has an equal-counter tie (see above). A tie on
+/// one member makes that member's level order-dependent, and through it the validity of every
+/// later operation that member authored.
+pub fn has_any_equal_counter_tie<C: Cx>(y: &State<C>) -> bool {
+    let mut keys: BTreeSet<(char, GroupMember<char>)> = BTreeSet::new();
+    for states in y.inner.states.values() {
+        for (g, gs) in states {
+            for (m, _) in member_entries::<GroupMember<char>, C>(gs) {
+                keys.insert((*g, m));
+            }
+        }
+    }
+    keys.into_iter().any(|(g, m)| has_equal_counter_tie(y, g, m))
 }
